@@ -2,6 +2,7 @@ package hx
 
 import (
 	"math"
+	"os"
 	"math/rand"
 	"strings"
 	"time"
@@ -60,7 +61,13 @@ func (g *Gen) hostile() string {
 		return string(b)
 	case 6:
 		// a long value (kilobytes)
-		n := 1000 + g.pick(60000)
+		n := 1000 + g.pick(3000)
+		if os.Getenv("HX_BIG") != "" {
+			n = 1000 + g.pick(60000)
+			if g.chance(0.02) {
+				n = 1<<20 + g.pick(1<<21) // a multi-megabyte value
+			}
+		}
 		b := make([]byte, n)
 		for i := range b {
 			b[i] = byte(g.pick(256))
